@@ -111,7 +111,7 @@ MANUAL = {
         ("t_q_nlerp_pos", "q.nlerp 1 2 3 4 5 6 7 8 1/3"), ("t_q_nlerp_neg", "q.nlerp 1 2 3 4 -5 -6 -7 -8 1/3"),
         # slerp: far apart (dot <= 0.9995) with non-negative and negative dot; near (hands over to nlerp)
         ("t_q_slerp_far_pos", "q.slerp 1 0 0 0 3/5 4/5 0 0 1/3"), ("t_q_slerp_far_neg", "q.slerp 1 0 0 0 -3/5 4/5 0 0 1/3"),
-        ("t_q_slerp_near", "q.slerp 1 0 0 0 1 0 0 0 1/3"),
+        ("t_q_slerp_near", "q.slerp 1 0 0 0 1 0 0 0 1/3"), ("t_q_slerp_near_neg", "q.slerp 1 0 0 0 -1 0 0 0 1/3"),
     ],
     "C08": [
         ("t_dq_concat", "dq.concat 2 1 2 3 4 5 6 7 3 8 9 10 11 12 13 14"), ("t_dq_transform_point", "dq.transform_point 2 1 2 3 4 5 6 7 8 9 10"),
@@ -145,6 +145,10 @@ MANUAL = {
         ("t_deg_normalize_pos", "deg.normalize 400"), ("t_deg_normalize_neg", "deg.normalize -30"),
         ("t_deg_normalize_signed_hi", "deg.normalize_signed 270"), ("t_deg_normalize_signed_lo", "deg.normalize_signed 30"),
         ("t_deg_opposite", "deg.opposite 30"),
+        # normalize_signed with a negative remainder (a < 0): the remainder is lifted by a full turn first
+        ("t_deg_normalize_signed_neg_hi", "deg.normalize_signed -30"), ("t_deg_normalize_signed_neg_lo", "deg.normalize_signed -270"),
+        ("t_rad_normalize_signed_hi", "rad.normalize_signed 5"), ("t_rad_normalize_signed_lo", "rad.normalize_signed 1"),
+        ("t_rad_opposite", "rad.opposite 1"), ("t_deg_opposite_neg", "deg.opposite -300"),
         ("t_deg_normalize_zero", "deg.normalize 720"), ("t_deg_bisect_wrap", "deg.bisect 50 350"), ("t_deg_bisect_near", "deg.bisect 50 80"),
         ("t_deg_acos", "deg.acos 1/2"), ("t_deg_asin", "deg.asin 1/2"), ("t_deg_atan", "deg.atan 1/2"), ("t_deg_atan2", "deg.atan2 1 2"),
         ("t_rad_acos", "rad.acos 1/2"), ("t_deg_sin", "deg.sin 30"), ("t_deg_cos", "deg.cos 30"), ("t_deg_tan", "deg.tan 30"),
